@@ -158,15 +158,23 @@ def _run_property(modname: str, tier: str, seed: int, jobs: Optional[int] = None
     # confirm counterexamples on the real code, match known findings
     sigf = getattr(mod, "signature", _default_signature)
     known = load_known(pid)
-    by_sig: Dict[str, Dict[str, Any]] = {}
+    by_sig: Dict[str, List[Dict[str, Any]]] = {}
     for f in failures:
-        by_sig.setdefault(sigf(f), f)
+        lst = by_sig.setdefault(sigf(f), [])
+        if len(lst) < 8:
+            lst.append(f)
     violations: List[Tuple[str, str]] = []
     known_hit: List[str] = []
     unconfirmed: List[str] = []
     os.makedirs(REPLAY_DIR, exist_ok=True)
-    for sig, f in sorted(by_sig.items()):
-        ok, detail = confirm(mod, harnesses, f, sigf)
+    for sig, cands in sorted(by_sig.items()):
+        # the same signature may have been found in several cases: report it if any of them reproduces on the real code
+        ok, detail, f = False, None, cands[0]
+        for cand in cands:
+            ok, detail = confirm(mod, harnesses, cand, sigf)
+            if ok:
+                f = cand
+                break
         rec = {
             "property": pid, "module": modname, "harness": f.get("harness"), "signature": sig,
             "failure": f, "confirmed_on_real_code": ok, "confirmation": detail,
